@@ -59,6 +59,10 @@ def enc(v):
         for k in v:
             if not isinstance(k, str):
                 raise Unencodable(f"non-string key {k!r}")
+            try:
+                k.encode("utf-8")
+            except UnicodeEncodeError as e:
+                raise Unencodable("lone surrogate in a member name") from e
         return {"o": [[k, enc(x)] for k, x in v.items()]}
     raise Unencodable(f"type {type(v).__name__}")
 
